@@ -112,6 +112,7 @@ pub mod k {
     pub const DGRAM_ALT: i128 = 78; // odd-numbered datagrams are small (100 bytes)
     pub const EARLY_STOP: i128 = 79; // client stops the receive half of each bidi stream right after opening it
     pub const NO_REDO: i128 = 80; // after a 0-RTT rejection the client does not repeat its workload
+    pub const DGRAM_START: i128 = 81; // us: application datagrams are not sent before this instant
     pub const RECONNECT: i128 = 70; // open this many further client connections, one per drained connection (slot reuse)
 }
 
@@ -260,6 +261,9 @@ struct App {
     p_writable: Vec<StreamId>,
     next_read_at: u64,
     next_dgram_at: u64,
+    dgram_wake_set: bool,
+    pending_stops: Vec<(u64, StreamId)>,
+    hold_close_until: u64,
 }
 
 struct ConnSt {
@@ -544,6 +548,9 @@ impl World {
             p_writable: Vec::new(),
             next_read_at: 0,
             next_dgram_at: 0,
+            dgram_wake_set: false,
+            pending_stops: Vec::new(),
+            hold_close_until: 0,
         }
     }
 
@@ -968,10 +975,12 @@ impl World {
         let zero_rtt = self.p.get(k::ZERO_RTT, 0);
         let self_server_early = self.p.get(k::SERVER_EARLY, 0) != 0;
         let read_serial = self.p.get(k::READ_SERIAL, 0) as u64;
-        let early_stop = self.p.get(k::EARLY_STOP, 0) != 0;
+        let early_stop = self.p.get(k::EARLY_STOP, 0) as u64;
         let no_redo = self.p.get(k::NO_REDO, 0) != 0;
         let dgram_interval = self.p.get(k::DGRAM_INTERVAL, 0) as u64;
-        let dgram_alt = self.p.get(k::DGRAM_ALT, 0) != 0;
+        let dgram_alt = self.p.get(k::DGRAM_ALT, 0);
+        let dgram_total = self.p.get(k::NDGRAM, 0) as u64;
+        let dgram_start = self.p.get(k::DGRAM_START, 0) as u64;
         let now_us = self.now;
         let mut new_app_wake: Option<u64> = None;
         let self_nbidi = self.p.get(k::NBIDI, 1) as u64;
@@ -1001,6 +1010,12 @@ impl World {
                     if app.is_client && app.early_started && !conn.accepted_0rtt() {
                         // early data rejected: everything starts over on a fresh connection state
                         tr.push(vec![13, t, 7, c]);
+                        if no_redo {
+                            // stay connected for a while: anything left over from the early attempt
+                            // would now be sent
+                            app.hold_close_until = now_us + 300_000;
+                            new_app_wake = Some(app.hold_close_until);
+                        }
                         app.want_bidi = if no_redo { 0 } else { self_nbidi };
                         app.want_uni = if no_redo { 0 } else { self_nuni };
                         app.out.clear();
@@ -1089,6 +1104,14 @@ impl World {
             app.p_dgram_rx = dgram_rx;
             app.p_dgram_unblocked = dgram_unblocked;
         } else {
+            // delayed stop() calls (EARLY_STOP)
+            let due: Vec<StreamId> = app.pending_stops.iter().filter(|(w, _)| *w <= now_us).map(|(_, id)| *id).collect();
+            app.pending_stops.retain(|(w, _)| *w > now_us);
+            for id in due {
+                let r = conn.recv_stream(id).stop(VarInt::from_u32(88));
+                tr.push(vec![3, t, e, c, 8, u64::from(id) as i128, 88, r.is_ok() as i128]);
+                did = true;
+            }
             // open streams
             if may_open && (!app.started || avail) {
                 app.started = true;
@@ -1098,9 +1121,11 @@ impl World {
                             app.want_bidi -= 1;
                             tr.push(vec![3, t, e, c, 1, u64::from(id) as i128, 0, 0]);
                             app.out.push(OutStream { id, total: app.stream_bytes, written: 0, finished: false, reset: false, stopped: false, fin_acked: false });
-                            if early_stop && app.is_client {
-                                let r = conn.recv_stream(id).stop(VarInt::from_u32(88));
-                                tr.push(vec![3, t, e, c, 8, u64::from(id) as i128, 88, r.is_ok() as i128]);
+                            if early_stop > 0 && app.is_client {
+                                // stop the receive half a little later (EARLY_STOP us after opening),
+                                // i.e. after the first flight left and before any reply can arrive
+                                app.pending_stops.push((now_us + early_stop - 1, id));
+                                new_app_wake = Some(now_us + early_stop - 1);
                                 app.inp.insert(u64::from(id), InStream { read: 0, done: true, ranges: Vec::new() });
                             } else {
                                 app.expect_in += 1;
@@ -1274,10 +1299,18 @@ impl World {
             }
             // datagrams
             let dgram_due = dgram_interval > 0 && now_us >= app.next_dgram_at;
-            if app.dgrams_left > 0 && (app.dgram_next == 0 || dgram_unblocked || dgram_due) {
+            if app.dgrams_left > 0 && now_us < dgram_start {
+                if !app.dgram_wake_set {
+                    app.dgram_wake_set = true;
+                    new_app_wake = Some(dgram_start);
+                }
+            } else if app.dgrams_left > 0 && (app.dgram_next == 0 || dgram_unblocked || dgram_due) {
                 while app.dgrams_left > 0 {
                     let id = app.dgram_next;
-                    let this_size = if dgram_alt && id % 2 == 1 { 100 } else { dsize.max(8) };
+                    // DGRAM_ALT 1: odd ids are small; 2: the first half is a burst of large ones, the
+                    // second half small and paced
+                    let burst_phase = dgram_alt == 2 && id < dgram_total / 2;
+                    let this_size = if (dgram_alt == 1 && id % 2 == 1) || (dgram_alt == 2 && !burst_phase) { 100 } else { dsize.max(8) };
                     let mut d = vec![0u8; this_size];
                     d[..8].copy_from_slice(&(id ^ (app.salt << 32)).to_be_bytes());
                     for i in 8..d.len() {
@@ -1291,7 +1324,7 @@ impl World {
                             app.dgram_next += 1;
                             app.dgrams_left -= 1;
                             did = true;
-                            if dgram_interval > 0 {
+                            if dgram_interval > 0 && !burst_phase {
                                 app.next_dgram_at = now_us + dgram_interval;
                                 if app.dgrams_left > 0 {
                                     new_app_wake = Some(new_app_wake.map_or(app.next_dgram_at, |w: u64| w.min(app.next_dgram_at)));
@@ -1353,6 +1386,7 @@ impl World {
                 && app.dgrams_left == 0
                 && app.connected;
             let time_close = close_at > 0 && self.now as i128 >= close_at;
+            let done = done && now_us >= app.hold_close_until;
             if i_close && ((close_at == 0 && done && (app.is_client || !app.inp.is_empty() || app.stream_bytes == 0)) || time_close) {
                 let code = if app.is_client { 42 } else { 43 };
                 conn.close(now_i, VarInt::from_u32(code), Bytes::from_static(b"bye"));
